@@ -12,6 +12,8 @@
 #include "TFEL/Math/t2tot2.hxx"
 #include "TFEL/Math/Stensor/SymmetricStensorProduct.hxx"
 #include "TFEL/Math/ST2toST2/SymmetricStensorProductDerivative.hxx"
+#include "TFEL/Math/T2toT2/ConvertToPK1Derivative.hxx"
+#include "TFEL/Math/T2toT2/ConvertFromPK1Derivative.hxx"
 #include "TFEL/Material/IsotropicPlasticity.hxx"
 #include <cstring>
 #include <iostream>
@@ -19,41 +21,79 @@
 using namespace symv;
 using namespace tfel::math;
 
-// kind of the differentiation variable p and of the parameter q: 's' symmetric tensor, 't' tensor, '-' none
+// kind of the differentiation variable p: 's' symmetric tensor, 't' tensor.  The parameter q is a sequence of blocks:
+// 's' symmetric tensor, 't' tensor, 'S' st2tost2 (ns x ns), 'M' t2tost2 (ns x nt), 'T' t2tot2 (nt x nt), 'W' st2tot2 (nt x ns),
+// 'A' anchor = a copy of the point p0 at which the derivative is taken.
+// The chain-rule / conversion helpers receive the derivative X of an inner function and its value at the point; the function
+// differentiated is built with the affine inner function v(p) = v0 + X.p (value v(p), derivative X): every differentiable inner
+// function has the same first-order behaviour, so by the chain rule the statement for the affine one is the statement for all.
 struct HelperDesc {
   const char* name;
-  char pk, qk;
-  bool needs_invertible_q;  // the helper divides by det(q)
+  char pk;
+  const char* qk;
+  bool needs_invertible_q;  // the helper divides by det(q) (q a single tensor)
+  bool needs_invertible_p;  // the function divides by det(p)
 };
 static const HelperDesc helpers[] = {
-    {"stensor_det", 's', '-', false},
-    {"stensor_det2", 's', '-', false},
-    {"stensor_devdet", 's', '-', false},
-    {"stensor_devdet2", 's', '-', false},
-    {"J3", 's', '-', false},
-    {"J3_2", 's', '-', false},
-    {"dsquare", 's', '-', false},
-    {"stpd", 's', 's', false},
-    {"daba_da", 's', 's', false},
-    {"daba_db", 's', 's', false},
-    {"st2tot2_tpld", 's', 's', false},
-    {"st2tot2_tprd", 's', 's', false},
-    {"tensor_det", 't', '-', false},
-    {"tensor_det2", 't', '-', false},
-    {"dCdF", 't', '-', false},
-    {"dBdF", 't', '-', false},
-    {"tpld", 't', 't', false},
-    {"tprd", 't', 't', false},
-    {"transpose_derivative", 't', '-', false},
-    {"velocity_gradient", 't', 't', true},
-    {"rate_of_deformation", 't', 't', true},
-    {"spin_rate", 't', 't', true},
+    {"stensor_det", 's', "", false, false},
+    {"stensor_det2", 's', "", false, false},
+    {"stensor_devdet", 's', "", false, false},
+    {"stensor_devdet2", 's', "", false, false},
+    {"J3", 's', "", false, false},
+    {"J3_2", 's', "", false, false},
+    {"dsquare", 's', "", false, false},
+    {"stpd", 's', "s", false, false},
+    {"daba_da", 's', "s", false, false},
+    {"daba_db", 's', "s", false, false},
+    {"st2tot2_tpld", 's', "s", false, false},
+    {"st2tot2_tprd", 's', "s", false, false},
+    {"tensor_det", 't', "", false, false},
+    {"tensor_det2", 't', "", false, false},
+    {"dCdF", 't', "", false, false},
+    {"dBdF", 't', "", false, false},
+    {"tpld", 't', "t", false, false},
+    {"tprd", 't', "t", false, false},
+    {"transpose_derivative", 't', "", false, false},
+    {"velocity_gradient", 't', "t", true, false},
+    {"rate_of_deformation", 't', "t", true, false},
+    {"spin_rate", 't', "t", true, false},
+    // second round: chain-rule overloads, push-forwards, stress-derivative conversions
+    {"dsquare_chain", 's', "sS", false, false},
+    {"tpld_chain", 't', "ttT", false, false},
+    {"tprd_chain", 't', "ttT", false, false},
+    {"st2tot2_tpld_chain", 's', "ssS", false, false},
+    {"st2tot2_tprd_chain", 's', "ssS", false, false},
+    {"push_forward_dS", 's', "t", false, false},
+    {"push_forward_dF", 't', "s", false, false},
+    {"push_forward_chain", 't', "sM", false, false},
+    {"kirchhoff_from_cauchy", 't', "sM", false, false},
+    {"cauchy_from_kirchhoff", 't', "sM", false, true},
+    {"pk1_from_cauchy", 't', "sM", false, false},
+    {"pk1_from_pk2", 't', "sS", false, true},
+    {"tau_from_pk1", 't', "sTA", false, true},
 };
 static const int nhelpers = sizeof(helpers) / sizeof(helpers[0]);
 
 static int ssize(int N) { return N == 1 ? 3 : (N == 2 ? 4 : 6); }
 static int tsize(int N) { return N == 1 ? 3 : (N == 2 ? 5 : 9); }
-static int ksize(char k, int N) { return k == 's' ? ssize(N) : (k == 't' ? tsize(N) : 0); }
+static int ksize(char k, int N, char pk = '-') {
+  const int ns = ssize(N), nt = tsize(N);
+  switch (k) {
+    case 's': return ns;
+    case 't': return nt;
+    case 'S': return ns * ns;
+    case 'M': return ns * nt;
+    case 'T': return nt * nt;
+    case 'W': return nt * ns;
+    case 'A': return pk == 's' ? ns : nt;
+    default: return 0;
+  }
+}
+static int qsize(const HelperDesc& H, int N) {
+  int n = 0;
+  for (const char* c = H.qk; *c; ++c) n += ksize(*c, N, H.pk);
+  return n;
+}
 
 template <typename T, unsigned short N>
 stensor<N, T> mkst(const std::vector<T>& a) {
@@ -66,6 +106,34 @@ tensor<N, T> mkt(const std::vector<T>& a) {
   tensor<N, T> s;
   for (unsigned short i = 0; i < s.size(); ++i) s[i] = a[i];
   return s;
+}
+template <typename T, unsigned short N>
+stensor<N, T> mkst(const std::vector<T>& a, size_t off) {
+  stensor<N, T> s;
+  for (unsigned short i = 0; i < s.size(); ++i) s[i] = a[off + i];
+  return s;
+}
+template <typename T, unsigned short N>
+tensor<N, T> mkt(const std::vector<T>& a, size_t off) {
+  tensor<N, T> s;
+  for (unsigned short i = 0; i < s.size(); ++i) s[i] = a[off + i];
+  return s;
+}
+// fourth order object (rows x cols, row major in a starting at off)
+template <typename M, typename T>
+M mk4(const std::vector<T>& a, size_t off, int rows, int cols) {
+  M m;
+  for (unsigned short i = 0; i < rows; ++i)
+    for (unsigned short j = 0; j < cols; ++j) m(i, j) = a[off + i * cols + j];
+  return m;
+}
+// v0 + X.p: the affine inner function (derivative X everywhere)
+template <typename V, typename M, typename P>
+V affine(const V& v0, const M& X, const P& p) {
+  V r = v0;
+  for (unsigned short i = 0; i < r.size(); ++i)
+    for (unsigned short j = 0; j < p.size(); ++j) r[i] = r[i] + X(i, j) * p[j];
+  return r;
 }
 template <typename T, typename S>
 void pushv(std::vector<T>& r, const S& s) {
@@ -263,6 +331,152 @@ void helper(const std::string& h, const std::vector<T>& p, const std::vector<T>&
       const t2tot2<N, T> d = computeSpinRateDerivative(F);
       pushm(D, d, nt, nt);
     }
+  } else if (h == "dsquare_chain") {  // q = s0 | C: d/dx square(s(x)), s(x) = s0 + C.x, is dsquare(s(x), C)
+    const auto x = mkst<T, N>(p, 0);
+    const auto s0 = mkst<T, N>(q, 0);
+    const auto C = mk4<st2tost2<N, T>>(q, ns, ns, ns);
+    const stensor<N, T> sx = affine(s0, C, x);
+    if (wantf) pushv(f, square(sx));
+    if (wantD) {
+      const st2tost2<N, T> d = st2tost2<N, T>::dsquare(sx, C);
+      pushm(D, d, ns, ns);
+    }
+  } else if (h == "tpld_chain" || h == "tprd_chain") {
+    // q = V0 | W | C.  tpld(W, C): d/dx (V(x) * W) with V(x) = V0 + C.x;  tprd(W, C): d/dx (W * V(x))
+    const auto x = mkt<T, N>(p, 0);
+    const auto V0 = mkt<T, N>(q, 0);
+    const auto W = mkt<T, N>(q, nt);
+    const auto C = mk4<t2tot2<N, T>>(q, 2 * nt, nt, nt);
+    const bool left = (h == "tpld_chain");
+    if (wantf) {
+      const tensor<N, T> V = affine(V0, C, x);
+      const tensor<N, T> r = left ? tensor<N, T>(V * W) : tensor<N, T>(W * V);
+      pushv(f, r);
+    }
+    if (wantD) {
+      const t2tot2<N, T> d = left ? t2tot2<N, T>(t2tot2<N, T>::tpld(W, C)) : t2tot2<N, T>(t2tot2<N, T>::tprd(W, C));
+      pushm(D, d, nt, nt);
+    }
+  } else if (h == "st2tot2_tpld_chain" || h == "st2tot2_tprd_chain") {
+    // q = v0 | w | C (symmetric tensors, C a st2tost2): st2tot2::tpld(w, C) = d/dx (v(x) * w), tprd(w, C) = d/dx (w * v(x))
+    const auto x = mkst<T, N>(p, 0);
+    const auto v0 = mkst<T, N>(q, 0);
+    const auto w = mkst<T, N>(q, ns);
+    const auto C = mk4<st2tost2<N, T>>(q, 2 * ns, ns, ns);
+    const bool left = (h == "st2tot2_tpld_chain");
+    if (wantf) {
+      const stensor<N, T> v = affine(v0, C, x);
+      const tensor<N, T> r = left ? tensor<N, T>(v * w) : tensor<N, T>(w * v);
+      pushv(f, r);
+    }
+    if (wantD) {
+      const st2tot2<N, T> d = left ? st2tot2<N, T>(st2tot2<N, T>::tpld(w, C)) : st2tot2<N, T>(st2tot2<N, T>::tprd(w, C));
+      pushm(D, d, nt, ns);
+    }
+  } else if (h == "push_forward_dS") {  // d/dS (F S F^T) at fixed F (= q): ST2toST2 computePushForwardDerivative(r, F)
+    const auto S = mkst<T, N>(p, 0);
+    const auto F = mkt<T, N>(q, 0);
+    if (wantf) {
+      const stensor<N, T> r = push_forward(S, F);
+      pushv(f, r);
+    }
+    if (wantD) {
+      st2tost2<N, T> d;
+      computePushForwardDerivative(d, F);
+      pushm(D, d, ns, ns);
+    }
+  } else if (h == "push_forward_dF") {  // d/dF (F S F^T) at fixed S (= q)
+    const auto F = mkt<T, N>(p, 0);
+    const auto S = mkst<T, N>(q, 0);
+    if (wantf) {
+      const stensor<N, T> r = push_forward(S, F);
+      pushv(f, r);
+    }
+    if (wantD) {
+      t2tost2<N, T> d;
+      computePushForwardDerivativeWithRespectToDeformationGradient(d, S, F);
+      pushm(D, d, ns, nt);
+    }
+  } else if (h == "push_forward_chain" || h == "kirchhoff_from_cauchy" || h == "cauchy_from_kirchhoff" || h == "pk1_from_cauchy") {
+    // q = v0 | X: v(F) = v0 + X.F, a symmetric tensor valued function of F whose derivative is X
+    const auto F = mkt<T, N>(p, 0);
+    const auto v0 = mkst<T, N>(q, 0);
+    const auto X = mk4<t2tost2<N, T>>(q, ns, ns, nt);
+    const stensor<N, T> v = affine(v0, X, F);
+    if (h == "push_forward_chain") {  // T(F) = F S(F) F^T, S(F) = v(F)
+      if (wantf) {
+        const stensor<N, T> r = push_forward(v, F);
+        pushv(f, r);
+      }
+      if (wantD) {
+        const t2tost2<N, T> d = computePushForwardDerivative(X, v, F);
+        pushm(D, d, ns, nt);
+      }
+    } else if (h == "kirchhoff_from_cauchy") {  // tau(F) = det(F) sigma(F), sigma(F) = v(F)
+      if (wantf) {
+        const stensor<N, T> r = det(F) * v;
+        pushv(f, r);
+      }
+      if (wantD) {
+        const t2tost2<N, T> d = computeKirchhoffStressDerivativeFromCauchyStressDerivative(X, v, F);
+        pushm(D, d, ns, nt);
+      }
+    } else if (h == "cauchy_from_kirchhoff") {
+      // sigma(F) = tau(F) / det(F), tau(F) = v(F); the helper receives dtau/dF (= X) and the Cauchy stress sigma(F)
+      const stensor<N, T> sig = v / det(F);
+      if (wantf) pushv(f, sig);
+      if (wantD) {
+        const t2tost2<N, T> d = computeCauchyStressDerivativeFromKirchhoffStressDerivative(X, sig, F);
+        pushm(D, d, ns, nt);
+      }
+    } else {  // P(F) = det(F) sigma(F) F^-T by the function of /repo, sigma(F) = v(F)
+      if (wantf) {
+        const tensor<N, T> r = convertCauchyStressToFirstPiolaKirchhoffStress(v, F);
+        pushv(f, r);
+      }
+      if (wantD) {
+        const t2tot2<N, T> d = convertCauchyStressDerivativeToFirstPiolaKirchoffStressDerivative(X, F, v);
+        pushm(D, d, nt, nt);
+      }
+    }
+  } else if (h == "pk1_from_pk2") {
+    // q = S0 | dS/dE.  S(F) = S0 + dS.E(F) (second Piola-Kirchhoff stress, E the Green-Lagrange strain); P(F) = F.S(F),
+    // computed with the conversions of /repo through the Cauchy stress; the helper receives the Cauchy stress at F
+    const auto F = mkt<T, N>(p, 0);
+    const auto S0 = mkst<T, N>(q, 0);
+    const auto dS = mk4<st2tost2<N, T>>(q, ns, ns, ns);
+    const stensor<N, T> E = computeGreenLagrangeTensor(F);
+    const stensor<N, T> S = affine(S0, dS, E);
+    const stensor<N, T> sig = convertSecondPiolaKirchhoffStressToCauchyStress(S, F);
+    if (wantf) {
+      const tensor<N, T> r = convertCauchyStressToFirstPiolaKirchhoffStress(sig, F);
+      pushv(f, r);
+    }
+    if (wantD) {
+      const t2tot2<N, T> d = convertSecondPiolaKirchhoffStressDerivativeToFirstPiolaKirchoffStressDerivative(dS, F, sig);
+      pushm(D, d, nt, nt);
+    }
+  } else if (h == "tau_from_pk1") {
+    // q = s0 | dP/dF | F0 (anchor).  P(F) = P0 + dP.(F - F0), P0 the first Piola-Kirchhoff stress of the (symmetric) Cauchy stress
+    // s0 at F0: the helper is given s0, so the statement is made at F = F0 only.
+    // tau(F) = det(F) * convertFirstPiolaKirchhoffStressToCauchyStress(P(F), F) (functions of /repo)
+    const auto F = mkt<T, N>(p, 0);
+    const auto s0 = mkst<T, N>(q, 0);
+    const auto dP = mk4<t2tot2<N, T>>(q, ns, nt, nt);
+    const auto F0 = mkt<T, N>(q, ns + nt * nt);
+    if (wantf) {
+      const tensor<N, T> P0 = convertCauchyStressToFirstPiolaKirchhoffStress(s0, F0);
+      tensor<N, T> P = P0;
+      for (unsigned short i = 0; i < P.size(); ++i)
+        for (unsigned short j = 0; j < F.size(); ++j) P[i] = P[i] + dP(i, j) * (F[j] - F0[j]);
+      const stensor<N, T> sig = convertFirstPiolaKirchhoffStressToCauchyStress(P, F);
+      const stensor<N, T> r = det(F) * sig;
+      pushv(f, r);
+    }
+    if (wantD) {
+      const t2tost2<N, T> d = convertFirstPiolaKirchoffStressDerivativeToKirchhoffStressDerivative(dP, F, s0);
+      pushm(D, d, ns, nt);
+    }
   } else {
     throw std::runtime_error("unknown helper " + h);
   }
@@ -283,15 +497,33 @@ static std::vector<double> rnd(Rng& g, int n, double a, double b) {
 }
 // random q; when it must be invertible: identity + perturbation (det bounded away from 0)
 static std::vector<double> make_q(Rng& g, const HelperDesc& H, int N) {
-  const int nq = ksize(H.qk, N);
+  const int nq = qsize(H, N);
   auto q = rnd(g, nq, -2., 2.);
   if (H.needs_invertible_q) {
     for (int i = 0; i < nq; ++i) q[i] = (i < 3 ? 1.0 + 0.5 * g.range(-0.5, 0.5) : g.range(-0.25, 0.25));
   }
   return q;
 }
+// the differentiation point; a deformation gradient close to the identity when the function divides by its determinant
+static std::vector<double> make_p(Rng& g, const HelperDesc& H, int N) {
+  const int np = ksize(H.pk, N);
+  auto p = rnd(g, np, -2., 2.);
+  if (H.needs_invertible_p) {
+    for (int i = 0; i < np; ++i) p[i] = (i < 3 ? 1.0 + 0.5 * g.range(-0.5, 0.5) : g.range(-0.25, 0.25));
+  }
+  return p;
+}
+// offset of the anchor block (copy of the differentiation point) in q, or -1
+static int anchor_offset(const HelperDesc& H, int N) {
+  int off = 0;
+  for (const char* c = H.qk; *c; ++c) {
+    if (*c == 'A') return off;
+    off += ksize(*c, N, H.pk);
+  }
+  return -1;
+}
 static std::vector<double> pad(std::vector<double> v) {
-  v.resize(9, 0.);
+  if (v.size() < 9) v.resize(9, 0.);
   return v;
 }
 
@@ -304,11 +536,11 @@ int main(int argc, char** argv) {
       for (int k = 0; k < nhelpers; ++k)
         for (int N = 1; N <= 3; ++N) {
           const HelperDesc& H = helpers[k];
-          const int np = ksize(H.pk, N), nq = ksize(H.qk, N);
+          const int np = ksize(H.pk, N), nq = qsize(H, N);
           auto p = vars("p", np), q = vars("q", nq);
           auto pp = p, qq = q;
-          pp.resize(9, Sym(0));
-          qq.resize(9, Sym(0));
+          if (pp.size() < 9) pp.resize(9, Sym(0));
+          if (qq.size() < 9) qq.resize(9, Sym(0));
           std::vector<Sym> f, D;
           helperN<Sym>(N, H.name, pp, qq, f, D);
           std::vector<Sym> ps = p;
@@ -330,9 +562,9 @@ int main(int argc, char** argv) {
           Rng g(seed * 1000003ULL + 97 * k + N);
           int bad = 0, done = 0;
           for (int c = 0; c < ncases; ++c) {
-            const bool scaled = (c % 3 == 1) && !H.needs_invertible_q;
+            const bool scaled = (c % 3 == 1) && !H.needs_invertible_q && !H.needs_invertible_p;
             const double sc = scaled ? std::pow(10., g.below(41) - 20) : 1.0;
-            auto dp = rnd(g, np, -2., 2.);
+            auto dp = make_p(g, H, N);
             auto dq = make_q(g, H, N);
             for (auto& e : dp) e *= sc;
             if (!H.needs_invertible_q)
@@ -377,8 +609,11 @@ int main(int argc, char** argv) {
           const int np = ksize(H.pk, N);
           Rng g(seed * 7919ULL + 131 * k + N);
           for (int c = 0; c < ncases; ++c) {
-            auto dp = rnd(g, np, -2., 2.);
+            auto dp = make_p(g, H, N);
             auto dq = make_q(g, H, N);
+            const int ao = anchor_offset(H, N);
+            if (ao >= 0)   // the derivative is claimed at p = anchor: the anchor stays at the base point while p is perturbed
+              for (int i = 0; i < np; ++i) dq[ao + i] = dp[i];
             std::vector<double> f0, D0, fp, fm, dummy;
             helperN<double>(N, H.name, pad(dp), pad(dq), f0, D0);
             const double h = 1e-4;
